@@ -3,6 +3,7 @@ package main
 import (
 	"fmt"
 	"go/types"
+	"sort"
 	"strings"
 
 	"golang.org/x/tools/go/ssa"
@@ -234,8 +235,21 @@ func (st *State) elemFam(s Sort) *Family {
 	}
 	return f
 }
-func (st *State) mapFams(k, v Sort) (dom, val, ln *Family) {
-	return st.family(famMapDom(k, v), []Sort{SInt, k}, SBool), st.family(famMapVal(k, v), []Sort{SInt, k}, v), st.family(famMapLen(k, v), []Sort{SInt}, SInt)
+// map families are keyed by the Go map type (not by sorts): a type-level
+// footprint such as maps[ResultCache]() must not touch unrelated int->int maps
+func (st *State) mapFamsT(mt *types.Map) (dom, val, ln *Family) {
+	k, v := st.u().sortOf(mt.Key()), st.u().sortOf(mt.Elem())
+	tn := shortTypeName(mt)
+	_, existed := st.fams["MV."+tn]
+	dom, val, ln = st.family("MD."+tn, []Sort{SInt, k}, SBool), st.family("MV."+tn, []Sort{SInt, k}, v), st.family("ML."+tn, []Sort{SInt}, SInt)
+	if !existed {
+		sym := sanitize("MV."+tn) + "@0"
+		switch mt.Elem().Underlying().(type) {
+		case *types.Pointer, *types.Map, *types.Signature:
+			st.sc.emit("(assert (forall ((m Int) (k %[3]s)) (! (< (%[1]s m k) %[2]s) :pattern ((%[1]s m k)))))", sym, st.alloc0.S, k)
+		}
+	}
+	return
 }
 
 // read family at snapshot
@@ -457,6 +471,26 @@ func (st *State) assumeWellFormed(v Term, t types.Type) {
 	case *types.Interface:
 		_ = tt
 		st.sc.assert(T(SBool, "(and (<= 0 (i-type %[1]s)) (=> (= (i-type %[1]s) 0) (= (i-val %[1]s) 0)))", v.S))
+		// what the interface value holds was allocated before the value was obtained
+		ids := make([]int, 0, len(st.u().typeByID))
+		for id := range st.u().typeByID {
+			ids = append(ids, id)
+		}
+		sort.Ints(ids)
+		var ptrIDs []Term
+		for _, id := range ids {
+			ct := st.u().typeByID[id]
+			switch ct.Underlying().(type) {
+			case *types.Pointer, *types.Map, *types.Signature:
+				ptrIDs = append(ptrIDs, eq(ifType(v), intLit(int64(id))))
+			case *types.Slice:
+				sl := st.unbox(ifPayload(v), ct)
+				st.sc.assert(implies(eq(ifType(v), intLit(int64(id))), T(SBool, "(and (<= 0 (s-off %[1]s)) (<= 0 (s-len %[1]s)) (<= (s-len %[1]s) (s-cap %[1]s)) (<= 0 (s-arr %[1]s)) (< (s-arr %[1]s) %[2]s) (<= (+ (s-off %[1]s) (s-cap %[1]s)) 281474976710656))", sl.S, st.alloc.S)))
+			}
+		}
+		if len(ptrIDs) > 0 {
+			st.sc.assert(implies(or(ptrIDs...), and(le(intLit(0), ifPayload(v)), lt(ifPayload(v), st.alloc))))
+		}
 	}
 }
 
